@@ -141,6 +141,20 @@ def success_edges(body, event, kind="ok"):
                 edges.add((event.bb, event.target))
                 how.append("return@bb%d" % event.bb)
         return edges, how
+    ok_e, fail_e, how = _outcome_edges(body, carriers, kind)
+    return ok_e, how
+
+
+def failure_edges(body, event, kind="ok"):
+    """The complement of success_edges: edges on which `event` is known to have FAILED (the Break edge of `?`,
+    the Err / None arm of a match, the false edge of is_ok()/is_some(), the true edge of is_err()/is_none())."""
+    carriers = result_carriers(body, event.dest["l"])
+    ok_e, fail_e, how = _outcome_edges(body, carriers, kind)
+    return fail_e, how
+
+
+def _outcome_edges(body, carriers, kind):
+    edges, fails, how = set(), set(), []
     # `?`: Try::branch on a carrier
     for e in body.events:
         if e.callee == "std::ops::Try::branch" and e.args:
@@ -150,6 +164,9 @@ def success_edges(body, event, kind="ok"):
                     if 0 in arms:
                         edges.add((sb, arms[0]))
                         how.append("?@bb%d" % sb)
+                        f = arms.get(1, other)
+                        if f is not None:
+                            fails.add((sb, f))
     # match / if let on the Result/Option itself
     want_head = "std::result::Result" if kind == "ok" else "std::option::Option"
     ok_val = 0 if kind == "ok" else 1
@@ -160,11 +177,32 @@ def success_edges(body, event, kind="ok"):
         if ok_val in arms:
             edges.add((sb, arms[ok_val]))
             how.append("match@bb%d" % sb)
+            f = arms.get(1 - ok_val, other)
+            if f is not None:
+                fails.add((sb, f))
         else:
             # `if let Err(..)`: only the other value is listed; the fall-through is success
             edges.add((sb, other))
             how.append("iflet-else@bb%d" % sb)
-    return edges, how
+            if (1 - ok_val) in arms:
+                fails.add((sb, arms[1 - ok_val]))
+    # is_ok() / is_err() / is_some() / is_none() on a carrier (by reference: the value lives on)
+    pos, negn = ("is_ok", "is_err") if kind == "ok" else ("is_some", "is_none")
+    head = "std::result::Result::<T, E>::" if kind == "ok" else "std::option::Option::<T>::"
+    for e in body.events:
+        if e.bb not in body.live or not e.args or e.name not in (head + pos, head + negn):
+            continue
+        if operand_local(e.args[0]) not in carriers:
+            continue
+        te, fe = bool_switch_edges(body, e.dest["l"])
+        if e.name.endswith(pos):
+            edges |= te
+            fails |= fe
+        else:
+            edges |= fe
+            fails |= te
+        how.append("%s@bb%d" % (e.name.rsplit("::", 1)[1], e.bb))
+    return edges, fails, how
 
 
 def bool_switch_edges(body, local):
